@@ -397,3 +397,103 @@ Definition bomb_doc (nm : nat -> string) (n : nat) : gdoc :=
   map (fun i => GFragmentDef (nm i) "Query" []
                   (if Nat.ltb i n then [GSpread (nm (S i)) []; GSpread (nm (S i)) []] else [GField None "a" [] [] None]))
       (seq 0 (S n)).
+
+(** * Flatten: each selection set is visited at most once per call
+    [fl_item] marks a fragment's selection set before walking it and never walks a marked one again, so
+    the number of visits is at most the size of the selection set flattened plus the size of the
+    fragments - in particular not 2^depth for fragments that spread the next one several times. *)
+
+Definition frel (tbl : ftable) (m : nat) (st st' : fstate) : Prop :=
+  exists ext, f_seen st' = ext ++ f_seen st /\ f_cost st' <= f_cost st + m + Wt tbl ext /\
+              (NoDup (f_seen st) -> NoDup (f_seen st')) /\ incl ext (map fst tbl).
+
+Lemma frel_refl tbl st : frel tbl 0 st st.
+Proof. exists []. simpl. repeat split; auto; [lia | apply incl_nil_l]. Qed.
+
+Lemma frel_trans tbl m1 m2 a b c : frel tbl m1 a b -> frel tbl m2 b c -> frel tbl (m1 + m2) a c.
+Proof.
+  intros [e1 [S1 [C1 [N1 I1]]]] [e2 [S2 [C2 [N2 I2]]]]. exists (e2 ++ e1).
+  repeat split.
+  - rewrite S2, S1, app_assoc. reflexivity.
+  - rewrite Wt_app. lia.
+  - auto.
+  - apply incl_app; auto.
+Qed.
+
+Lemma fold_res_frel tbl (f : fstate -> titem -> res fstate) (g : titem -> nat) l :
+  (forall x st st', In x l -> f st x = ROk st' -> frel tbl (g x) st st') ->
+  forall st st', fold_res f st l = ROk st' -> frel tbl (fold_right (fun x n => g x + n) 0 l) st st'.
+Proof.
+  induction l as [|x t IH]; intros Hf st st' H; simpl in *.
+  - inversion H; subst. apply frel_refl.
+  - destruct (f st x) as [st1| |] eqn:E; try discriminate.
+    eapply frel_trans; [eapply Hf; eauto | eapply IH; eauto].
+Qed.
+
+Lemma two_pass_frel tbl (item : bool -> fstate -> titem -> res fstate) l :
+  (forall x st st', In x l -> item true st x = ROk st' -> frel tbl 0 st st') ->
+  (forall x st st', In x l -> item false st x = ROk st' -> frel tbl (isz_item x) st st') ->
+  forall st st', two_pass item st l = ROk st' -> frel tbl (isz l) st st'.
+Proof.
+  intros H1 H2 st st' H. unfold two_pass in H.
+  destruct (fold_res (item true) st l) as [st1| |] eqn:E; try discriminate.
+  pose proof (fold_res_frel tbl (item true) (fun _ => 0) l H1 st st1 E) as R1.
+  pose proof (fold_res_frel tbl (item false) isz_item l H2 st1 st' H) as R2.
+  assert (Z : fold_right (fun (_ : titem) n => 0 + n) 0 l = 0) by (clear; induction l; simpl; auto).
+  cbv beta in R1. rewrite Z in R1. apply (frel_trans tbl 0 _ st st1 st' R1 R2).
+Qed.
+
+Lemma frel_bump tbl m st st' : frel tbl m (f_bump st) st' -> frel tbl (S m) st st'.
+Proof. intros [e [S1 [C1 [N1 I1]]]]. exists e. simpl in *. repeat split; auto. lia. Qed.
+
+Lemma frel_same tbl st st' : f_seen st' = f_seen st -> f_cost st' = f_cost st -> frel tbl 0 st st'.
+Proof. intros Hs Hc. exists []. simpl. rewrite Hs, Hc. repeat split; auto; [lia | apply incl_nil_l]. Qed.
+
+Lemma fl_item_frel fuel : forall tbl it b st st',
+  fl_item fuel tbl b st it = ROk st' -> frel tbl (if b then 0 else isz_item it) st st'.
+Proof.
+  induction fuel as [|f IHf]; intros tbl; [intros it b st st' H; discriminate|].
+  induction it using titem_ind'; intros b st st' H0; simpl in H0.
+  - destruct b; inversion H0; subst; [apply frel_same; reflexivity | apply frel_refl].
+  - destruct b; inversion H0; subst; [apply frel_same; reflexivity | apply frel_refl].
+  - destruct b; [inversion H0; subst; apply frel_refl|].
+    destruct ds; [|inversion H0; subst; apply frel_same; reflexivity].
+    destruct (mem n (f_seen st)) eqn:Em; [inversion H0; subst; apply frel_refl|].
+    destruct (lookup n tbl) as [[on body]|] eqn:El; [|discriminate].
+    set (st1 := {| f_groups := f_groups st; f_seen := n :: f_seen st; f_cost := f_cost st; f_unknown := f_unknown st |}) in *.
+    assert (R : frel tbl (S (isz body)) st1 st').
+    { apply frel_bump. apply (two_pass_frel tbl (fl_item f tbl) body); auto.
+      - intros x s s' _ Hx. apply (IHf tbl x true s s' Hx).
+      - intros x s s' _ Hx. apply (IHf tbl x false s s' Hx). }
+    destruct R as [e [S1 [C1 [N1 I1]]]]. exists (e ++ [n]). simpl in *. repeat split.
+    + rewrite S1, <- app_assoc. reflexivity.
+    + rewrite Wt_app. simpl. unfold wt. rewrite El. lia.
+    + intros Hnd. apply N1. constructor; auto. intros Hc. apply mem_In in Hc. rewrite Hc in Em; discriminate.
+    + apply incl_app; auto. intros x [Hx|[]]; subst. apply lookup_In in El.
+      apply in_map_iff. exists (x, (on, body)); auto.
+  - destruct b; [inversion H0; subst; apply frel_refl|].
+    destruct (should_include ds) as [[|]| |]; try discriminate.
+    + apply frel_bump.
+      apply (two_pass_frel tbl (fl_item (S f) tbl) l); auto.
+      * intros x s s' Hin Hx. rewrite Forall_forall in H. apply (H x Hin true s s' Hx).
+      * intros x s s' Hin Hx. rewrite Forall_forall in H. apply (H x Hin false s s' Hx).
+    + inversion H0; subst. exists []. simpl. repeat split; auto; [lia | apply incl_nil_l].
+Qed.
+
+Lemma flatten_linear v tbl items st :
+  flatten v tbl items = ROk st -> f_cost st <= 1 + items_size items + ftable_size tbl.
+Proof.
+  unfold flatten.
+  destruct (two_pass (fl_item (S (List.length tbl)) tbl)
+                     (f_bump {| f_groups := []; f_seen := []; f_cost := 0; f_unknown := false |}) items) as [st1| |] eqn:E;
+    try discriminate.
+  assert (R : frel tbl (isz items) (f_bump {| f_groups := []; f_seen := []; f_cost := 0; f_unknown := false |}) st1).
+  { apply (two_pass_frel tbl (fl_item (S (List.length tbl)) tbl) items); auto.
+    - intros x s s' _ Hx. apply (fl_item_frel _ tbl x true s s' Hx).
+    - intros x s s' _ Hx. apply (fl_item_frel _ tbl x false s s' Hx). }
+  destruct R as [e [S1 [C1 [N1 I1]]]]. simpl in *. rewrite app_nil_r in S1.
+  assert (Hnd : NoDup e) by (rewrite <- S1; apply N1; constructor).
+  pose proof (Wt_bound tbl e Hnd I1). pose proof (isz_le_size items).
+  intros Hr. destruct (forallb (fun g => group_ok (snd g)) (f_groups st1)); [|destruct (fix26 v); discriminate].
+  inversion Hr; subst. lia.
+Qed.
